@@ -162,19 +162,71 @@ for k, v in UNITS.items():
     v["name"] = k
 
 SAFETY_KINDS = ("precondition", "arithmetic-overflow", "division-by-zero", "index-bounds", "termination", "shift-overflow", "panic")
+CONTAINMENT_WORDS = ("fs_allowed", "rel_inside", "harmless_suffix", "under_root", "has_dotdot_seg")
 
 
-def c04_counts(unit, f):
-    """C04 = panic freedom / termination / one response.  Functional postconditions of units shared with other
-    properties are reported under those properties; containment preconditions (fs_allowed) under C01."""
-    if unit == "server":
-        return True
-    if "fs_allowed" in f.snippet:
-        return False
-    return f.kind in SAFETY_KINDS
+def owner(unit, f):
+    """Which property a failing obligation of a SHARED unit is reported under (None: every property using the unit).
+    Every failure has exactly one owner or is reported by all users - nothing is dropped."""
+    if any(w in f.snippet for w in CONTAINMENT_WORDS) or f.fn.startswith("URL::is_path_inside_root"):
+        return "C01"
+    if unit == "static":
+        if f.kind == "precondition" and f.snippet.startswith("false@"):
+            return "C13"
+        if f.fn == "StaticResourceController::is_matching" and f.kind == "postcondition":
+            return "C09"
+        return "C04"
+    if unit == "range_parse":
+        return "C04" if f.kind in SAFETY_KINDS else "C03"
+    return None
+
+
+def counts_for(pid):
+    def flt(unit, f):
+        o = owner(unit, f)
+        return o is None or o == pid
+    return flt
 
 
 PROPS = {
+    "C01": {
+        "units": ["static"],
+        "level": "proof",
+        "falsifier": ["e2e"],
+        "case_prefixes": ["c01_"],
+        "counts": counts_for("C01"),
+        "samples": [
+            "StaticResourceController::is_matching / precondition / fs_allowed(path.pview()) @ rws_metadata(&static_filepath)",
+            "Range::get_content_range_list / precondition / fs_allowed(filepath@) @ Range::parse_content_range(&path, ..)",
+            "URL::is_path_inside_root / postcondition / res ==> rel_inside(path@)",
+        ],
+        "assumptions": [
+            "fs_allowed(path) := path == cwd ++ rel with rel starting with '/' and holding no '..' segment, or the resolution of a symbolic link found under the root (the property's exemption)",
+            "nothing is assumed about the path the url-build-parse dependency returns: every path handed to a file-system shim is checked by the code itself",
+            "functions not under contract that touch the file system: IndexController/NotFoundController (fixed file names index.html / 404.html), MimeType::detect_mime_type (reads no file)",
+        ],
+    },
+    "C13": {
+        "units": ["static"],
+        "level": "other",
+        "counts": counts_for("C13"),
+        "explanation": "Effect precondition: every mutating function of file_ext (write_file, create_file, delete_file, read_or_create_and_write, create_directory, delete_directory, create_symlink, copy_file) is declared with `requires false`; Verus proves that none of the functions under contract (all StaticResourceController functions, Range::get_content_range_list) can call one. Adding such a call to any of them fails a named obligation. Functions on the request path that are NOT under contract (other controllers, Log) are not covered.",
+        "samples": ["FileExt::write_file / precondition / false  (no call site exists in any function under contract)"],
+        "assumptions": ["std::fs / OpenOptions mutators are not declared at all in the shims: a call to one is an unsupported construct (exit 2), not a silent pass"],
+    },
+    "C09": {
+        "units": ["static", "response_gen", "cors"],
+        "level": "proof",
+        "falsifier": ["e2e", "response", "cors"],
+        "case_prefixes": ["c09_", "generate_response", "get_headers", "_process"],
+        "counts": counts_for("C09"),
+        "samples": [
+            "StaticResourceController::is_matching / postcondition / res == static_match(method, uri)  + lemma: static_match does not depend on which of GET/HEAD/OPTIONS asks",
+            "Response::generate_response / postcondition / head computed from the response alone; body dropped for HEAD/OPTIONS after Content-Length was computed from it",
+            "Cors::allow_all / postcondition / preflight grants on OPTIONS",
+        ],
+        "assumptions": ["StaticResourceController::process (status 204 for OPTIONS, same content ranges as GET) is proved panic-free and contained but has no functional postcondition yet"],
+    },
     "C14": {
         "units": ["request_parse", "request_gen"],
         "level": "proof",
@@ -188,12 +240,11 @@ PROPS = {
         "assumptions": ["the serialise-then-parse round trip itself is NOT proved (the two halves are proved against their specifications separately)"],
     },
     "C04": {
-        "units": ["server", "request_parse", "range_parse"],
+        "units": ["server", "request_parse", "range_parse", "static"],
         "level": "proof",
         "falsifier": ["e2e"],
         "case_prefixes": ["c04_"],
-        "known_cases": ["c04_panic|traversal x ::", "c04_panic|traversal .. ::"],
-        "counts": c04_counts,
+        "counts": counts_for("C04"),
         "samples": ["Server::process / every unwrap, index, cast and arithmetic operation / panic-freedom for an arbitrary transport and Application",
                     "Request::cursor_read / termination / decreases rem(old(cursor)).len()"],
         "assumptions": ["stack depth of the per-header recursion in Request::cursor_read is not expressible (termination is proved, a stack bound is not)"],
@@ -240,6 +291,7 @@ PROPS = {
         "units": ["range_parse", "response_gen"],
         "level": "proof",
         "falsifier": ["range", "response"],
+        "counts": counts_for("C03"),
         "known_cases": ["end<len"],   # falsifier cases that are the known findings F2 (known_findings.txt)
         "samples": [
             "Range::parse_range_in_content_range / postcondition / res.is_ok() ==> range_ok(filelength, range_str@, res.unwrap())",
